@@ -109,6 +109,15 @@ Override(s, v) ==
     [s EXCEPT !.hist = Append(@, H("ov", v, s.p, s.now, s.now)), !.it0 = s.now,
               !.shift = IF Variant = "shiftcmp" /\ s.segs # <<>> THEN s.now.o ELSE @]
 
+\* An override names variables: the history above is the history of a variable every override names.  A
+\* variable no override names (the replay's bystander z: same equation, same start) has the same history
+\* without the override records -- it goes on from the state it had reached, however many overrides and
+\* segments came before.
+HistOf(s, named) == IF named THEN s.hist ELSE SelectSeq(s.hist, LAMBDA rc : rc.k # "ov")
+\* ... and overrides never change which flows a variable goes through, named or not
+FlowsOf(hs) == SelectSeq(hs, LAMBDA rc : rc.k \in {"flow", "ss"})
+BystanderSameFlows(s) == FlowsOf(HistOf(s, FALSE)) = FlowsOf(HistOf(s, TRUE))
+
 \* one point at a time tau the specification does not choose; it must be later than the time reached
 Steady(s, tau) ==
     IF ~TLt(s.now, tau) THEN Illegal(s)
@@ -291,6 +300,7 @@ SegChain ==
            /\ g.t0 = (IF i = 1 THEN Zero ELSE st.segs[i - 1].times[Len(st.segs[i - 1].times)])
            /\ \A j \in 1..Len(g.times) : TLe(g.t0, g.times[j])
            /\ (i > 1 => \A m \in (st.segs[i - 1].sidx + 2)..g.sidx : st.hist[m].k = "ov")
+Bystander == BystanderSameFlows(st)
 NowIsLast == st.now = (IF st.segs = <<>> THEN Zero ELSE st.segs[Len(st.segs)].times[Len(st.segs[Len(st.segs)].times)])
 
 ParsAfter(p0, steps, i) == FoldLeft(LAMBDA a, x : Overlay(a, x.p), p0, SubSeq(steps, 1, i))
